@@ -313,3 +313,72 @@ def opts_lossless(ctx):
     if n == 0:
         raise AnchorLost("setters in client::opts that call a codec builder")
     return out
+
+
+# ------------------------------------------------------------------------------------ SEI-ORDER
+
+@rule("SEI-ORDER", floor=1)
+def sei_order(ctx):
+    """The session expiry interval in force is the one the CONNACK grants when it carries one, the requested one
+    otherwise: in connect() / authorize() the requested value is stored before the first response is handled, never
+    after `handle_connack` (which would overwrite what the broker granted)."""
+    from mir import place_fields
+    from effects import CONNECTION
+    out = []
+    n = 0
+    for nm in ("connect", "authorize"):
+        try:
+            b = ctx.flat(ctx.coroutine(r"client::context::Context::<[^>]*>::" + nm))
+        except AnchorLost:
+            continue
+        hcs = [i for i, t in b.calls(r"::handle_connack$")]
+        for i in sorted(b.reach):
+            for st in b.blocks[i]["stmts"]:
+                if st["k"] != "assign" or not place_fields(st["lhs"]) or place_fields(st["lhs"])[-1] != (CONNECTION, "session_expiry_interval"):
+                    continue
+                n += 1
+                at = b.rv_atoms(st["rv"])
+                from_connack = any(a[0] == "field" and str(a[1]).endswith("ConnackRx") for a in at)
+                after = [h for h in hcs if i in b.reachable_from(h) and i != h]
+                ok = from_connack or not after
+                out.append(Inst("SEI-ORDER", "%s:write@%d" % (nm, n), ok, "%s:%d" % (b.fn["file"], st["line"]),
+                                "session_expiry_interval := a value %s, %s" % ("of the CONNACK" if from_connack else "of the request", "after handle_connack (%s)" % [b.site(h) for h in after] if after else "before any response is handled"),
+                                "the requested interval is stored before the CONNACK is looked at; what the CONNACK grants is not overwritten"))
+    if n == 0:
+        raise AnchorLost("a write of Connection.session_expiry_interval in connect()")
+    return out
+
+
+# ------------------------------------------------------------------------------------ RESUME-QUOTA
+
+@rule("RESUME-QUOTA", floor=1)
+def resume_quota(ctx):
+    """The packets re-sent when a session is resumed are QoS>0 PUBLISH / PUBREL packets still in flight; connect() has
+    just set the send quota to the new Receive Maximum. On the pinned tree the disconnection is never recorded
+    (`Connection.disconnection_timestamp` is only ever cleared), so the replay cannot run and the question does not
+    arise; as soon as some code records it, the replay must account for the slots of what it re-sends (otherwise R + k
+    PUBLISH packets are in flight). Decided: who gives the field a value, and whether the replay touches the quota."""
+    from mir import place_fields
+    from effects import CONNECTION
+    import r_quota
+    out = []
+    setters = []
+    for _, ub in ctx.client_units():
+        for i in sorted(ub.reach):
+            for st in ub.blocks[i]["stmts"]:
+                if st["k"] != "assign" or not place_fields(st["lhs"]) or place_fields(st["lhs"])[-1] != (CONNECTION, "disconnection_timestamp"):
+                    continue
+                rv = st["rv"]
+                is_none = rv["k"] == "agg" and rv.get("variant") == "None"
+                if not is_none and rv["k"] == "use" and rv["op"].get("k") in ("move", "copy"):
+                    o = ub.origin(rv["op"], through_calls=False)
+                    is_none = o[0] == "agg" and o[2]["rv"].get("variant") == "None"
+                if not is_none:
+                    setters.append("%s:%d" % (ub.fn["file"], st["line"]))
+    run = ctx.run_body()
+    replay_dec = [w for w in r_quota.quota_writes(ctx) if w.kind == "dec" and (w.top.path == run.path)]
+    ok = not setters or bool(replay_dec)
+    out.append(Inst("RESUME-QUOTA", "replay-accounts-for-slots", ok, setters[0] if setters else run.site(0),
+                    "Connection.disconnection_timestamp is %s; the replay %s the send quota" % ("given a value at %s" % setters if setters else "never given a value (the resume path cannot run)", "decrements" if replay_dec else "does not touch"),
+                    "re-sent QoS>0 packets occupy slots of the new connection's Receive Maximum"))
+    return out
